@@ -138,6 +138,19 @@ fn c05_harness(spec: &RunSpec) -> RunOutput {
     }
 }
 
+/// C04 / C10: every fourth run is an API-level run (real clients, deterministic rounds).
+fn c04_c10_harness(spec: &RunSpec) -> RunOutput {
+    let api = match &spec.plan {
+        Some(p) => p["harness"].as_str() == Some("api"),
+        None => spec.index % 4 == 3,
+    };
+    if api {
+        api::api_harness(spec)
+    } else {
+        wire_harness(spec)
+    }
+}
+
 /// C12: every fifth run is an API-level run (real clients of mixed versions).
 fn c12_harness(spec: &RunSpec) -> RunOutput {
     let api = match &spec.plan {
@@ -198,7 +211,7 @@ fn prop_cfg(prop: Prop) -> Option<PropCfg> {
             "runs generated per seed by the C03 profile (create/destroy object/service over pools of 3x3 UUIDs with own/foreign/stale/never-issued cookies, queries, disconnects); non-trivial when a collision, foreign access, re-creation or cascade happened; distinct = distinct broker linearisation signatures",
             "exploration",
         ),
-        Prop::C04 => wire(
+        Prop::C04 => PropCfg { harness: c04_c10_harness, ..wire(
             |st| {
                 any(
                     st,
@@ -213,7 +226,7 @@ fn prop_cfg(prop: Prop) -> Option<PropCfg> {
             },
             "runs generated per seed by the C04 profile (subscribe/unsubscribe/subscribe-all/emit/destroy/disconnect); non-trivial when an event fanned out to 2+ connections, a 1->0 transition was forwarded, a service with subscribers was destroyed, or a non-owner emitted; distinct = distinct broker linearisation signatures",
             "exploration",
-        ),
+        ) },
         Prop::C05 => PropCfg { harness: c05_harness, ..wire(
             |st| {
                 any(
@@ -236,11 +249,11 @@ fn prop_cfg(prop: Prop) -> Option<PropCfg> {
             "runs generated per seed by the mixed profile with an ending (clean shutdown, transport error, EOF, shutdown_connection, dropped task) at a random script position of each connection with probability 0.4; non-trivial when a connection that owned or subscribed to something was removed; distinct = distinct broker linearisation signatures",
             "fault_enumeration",
         ),
-        Prop::C10 => wire(
+        Prop::C10 => PropCfg { harness: c04_c10_harness, ..wire(
             |st| any(st, &["current-enumeration-nonempty", "bus-event-delivered"]),
             "runs generated per seed by the C10 profile (listener create/destroy, all six filter shapes over the UUID pools, start/stop with the three scopes, object/service churn, disconnects); non-trivial when a current enumeration was non-empty or a new-event was delivered; distinct = distinct broker linearisation signatures",
             "exploration",
-        ),
+        ) },
         Prop::C11 => wire(
             |st| any(st, &["wrong-direction-message", "handler-returned-err", "gate-closed"]),
             "1-2 abusing connections sending arbitrary well-formed messages (all kinds incl. wrong-direction ones, stale/foreign/never-issued cookies and serials, garbage payloads) next to conformant connections and a late-joining probe; non-trivial when the broker had to refuse or close an abuser; distinct = distinct broker linearisation signatures",
@@ -468,7 +481,8 @@ fn cmd_run(prop: Prop, tier: Tier, opts: &std::collections::HashMap<String, Stri
         // Confirm by re-execution from plan + choices, then minimise, then confirm again.
         match runner::confirm(cfg.harness, prop, tier, found, false) {
             Err(e) => {
-                eprintln!("HARNESS-ERROR: {e}");
+                let path = write_replay(prop, tier, base_seed, found, false);
+                eprintln!("HARNESS-ERROR: {e} (unconfirmed plan and choices kept in {path})");
                 return 2;
             }
             Ok(_) => {
@@ -544,6 +558,15 @@ fn cmd_replay(path: &str) -> i32 {
     for line in &res.trace {
         println!("{line}");
     }
+    if std::env::var("VERIF_DEBUG_CHOICES").is_ok() {
+        let recorded: Vec<u32> = doc["choices"]
+            .as_array()
+            .map(|a| a.iter().filter_map(|x| x.as_u64().map(|x| x as u32)).collect())
+            .unwrap_or_default();
+        let first = recorded.iter().zip(res.choices.iter()).position(|(a, b)| a != b);
+        println!("choices: recorded {} executed {} first difference {:?}", recorded.len(), res.choices.len(), first);
+        println!("executed: {:?}", res.choices);
+    }
     let want_rule = doc["violation"]["rule"].as_str().unwrap_or("");
     let want_hash = doc["trace_hash"].as_str().unwrap_or("");
     let got_hash = format!("{:016x}", res.stats.trace_hash);
@@ -591,10 +614,22 @@ fn cmd_selftest_determinism(opts: &std::collections::HashMap<String, String>) ->
                 plan_only: false,
             };
             let a = runner::execute(cfg.harness, spec.clone());
-            let b = runner::execute(cfg.harness, spec);
+            let b = runner::execute(cfg.harness, spec.clone());
             if a.stats.trace_hash != b.stats.trace_hash || a.trace != b.trace {
                 bad += 1;
                 eprintln!("non-deterministic: {} seed {seed}", prop.name());
+            }
+            // Record/replay equivalence: the expanded plan plus the recorded choice list must
+            // reproduce the very same execution (this is what every replay file relies on).
+            if !a.choices.is_empty() {
+                let mut rspec = spec;
+                rspec.plan = Some(a.plan.clone());
+                rspec.choices = Some(a.choices.clone());
+                let c = runner::execute(cfg.harness, rspec);
+                if c.stats.trace_hash != a.stats.trace_hash {
+                    bad += 1;
+                    eprintln!("replay differs from the recorded run: {} seed {seed}", prop.name());
+                }
             }
             table.push(format!("{} {} {:016x}", prop.name(), seed, a.stats.trace_hash));
         }
@@ -606,7 +641,7 @@ fn cmd_selftest_determinism(opts: &std::collections::HashMap<String, String>) ->
         eprintln!("HARNESS-ERROR: {bad} non-deterministic runs");
         2
     } else {
-        println!("determinism: {} runs executed twice, all traces identical", table.len());
+        println!("determinism: {} runs executed twice and replayed from their recorded plan and choices, all traces identical", table.len());
         0
     }
 }
